@@ -73,6 +73,10 @@ impl DateLit {
             Spell::DMonY(p, c, b) => vec![num(self.d as i64), month_word(*p, *c, *b), num(y)],
             Spell::MonDY(p, c, b, comma) => {
                 let mut d = num(self.d as i64);
+                // the comma glued to the day, or (one case in four) standing apart: `June 10 , 2020`, `June 10 ,2020`
+                if *comma && *b % 4 == 3 {
+                    return vec![month_word(*p, *c, *b), d, Tok::op(','), num(y).sp(((*b >> 2) & 1) as u8)];
+                }
                 if *comma {
                     d.post = ",".into();
                 }
@@ -386,17 +390,25 @@ impl Prop for Dates {
             let whole = case_line(c);
             let text2: Option<String> = match &c.shape {
                 Shape::Arith(d, plus, n, u, sp, extra) if !c.glue => {
+                    // the whole duration held in a name (`b = 3 days` / `D + b`), or - every other count - only the
+                    // count (`b = 3` / `D + b days`)
+                    let count_only = *n % 2 == 1;
                     let mut def = Line::default();
                     def.push(Tok::word("b", Class::Var));
                     def.push(Tok::op('='));
                     def.push(Tok::num(NumLit { v: *n as f64, sign: 0, group: false }));
-                    def.push(Tok::word(unit_word(&c.lang, *u, *sp), Class::DurWord));
+                    if !count_only {
+                        def.push(Tok::word(unit_word(&c.lang, *u, *sp), Class::DurWord));
+                    }
                     let mut l = Line::default();
                     for t in d.toks(&c.lang) {
                         l.push(t);
                     }
                     l.push(Tok::op(if *plus { '+' } else { '-' }));
                     l.push(Tok::word("b", Class::Var));
+                    if count_only {
+                        l.push(Tok::word(unit_word(&c.lang, *u, *sp), Class::DurWord));
+                    }
                     if let Some(e) = extra {
                         l.push(Tok::num(NumLit { v: *e as f64, sign: 0, group: false }));
                         l.push(Tok::word(unit_word(&c.lang, Unit::Days, *sp), Class::DurWord));
